@@ -1,0 +1,43 @@
+// Copyright 2025 Tetrate
+//
+// Licensed under the Apache License, Version 2.0 (the "License");
+// you may not use this file except in compliance with the License.
+// You may obtain a copy of the License at
+//
+//     http://www.apache.org/licenses/LICENSE-2.0
+//
+// Unless required by applicable law or agreed to in writing, software
+// distributed under the License is distributed on an "AS IS" BASIS,
+// WITHOUT WARRANTIES OR CONDITIONS OF ANY KIND, either express or implied.
+// See the License for the specific language governing permissions and
+// limitations under the License.
+
+//go:build verif
+
+package oidc
+
+import (
+	"sync/atomic"
+	"time"
+)
+
+// verifClock holds the process-wide clock override installed by the
+// verification harness. It only exists in builds with the `verif` tag.
+var verifClock atomic.Pointer[func() time.Time]
+
+// verifNow returns the overridden time, if an override is installed.
+func verifNow() (time.Time, bool) {
+	if f := verifClock.Load(); f != nil {
+		return (*f)(), true
+	}
+	return time.Time{}, false
+}
+
+// VerifSetNow installs (or, with nil, removes) a process-wide override for Clock.Now.
+func VerifSetNow(f func() time.Time) {
+	if f == nil {
+		verifClock.Store(nil)
+		return
+	}
+	verifClock.Store(&f)
+}
